@@ -1,0 +1,8 @@
+//go:build verif
+
+package serf
+
+// VerifQueryID returns the (unexported) id of a query event, which is part of the
+// encoded response and therefore of its size. Used only by the verification harness
+// (/verif, property C27). Compiled only with -tags verif.
+func VerifQueryID(q *Query) uint32 { return q.id }
